@@ -459,6 +459,40 @@ func runC18(c *Ctx) {
 		r.Add(core.Obligation{Rule: "persist", Key: "persist handleRequest saves the acknowledged lease", Func: core.FuncName(fn), Pos: c.P.Pos(fn.Pos()), Status: st,
 			Basis: "every path from the ACK construction to a return passes saveConfig", Detail: det})
 	}
+	// netip.Addr.As4 panics on anything but an IPv4 address: in the package that builds its subnets from the lease file,
+	// every As4 call is under an Is4 test of the address it converts (a damaged file can name an IPv6 prefix)
+	r.Rule("as4-guarded", "As4 is called only on addresses tested with Is4", 1)
+	for _, fn := range c.P.LibFunctions() {
+		if fn.Pkg == nil || fn.Pkg.Pkg.Name() != "dhcp4_spoofer" {
+			continue
+		}
+		kga := core.NewKeyGen()
+		for _, site := range callsIn(fn, nameIs("As4")) {
+			if core.CalleeName(site) != "(net/netip.Addr).As4" || len(site.Common().Args) != 1 {
+				continue
+			}
+			ins := site.(ssa.Instruction)
+			arg := norm(site.Common().Args[0])
+			// the operand, or the prefix it was taken from, was tested
+			root := arg
+			if i := strings.Index(root, "(net/netip.Prefix).Addr("); i >= 0 {
+				root = strings.TrimSuffix(root[i+len("(net/netip.Prefix).Addr("):], ")")
+			}
+			ok := false
+			for _, g := range guardsOf(ins) {
+				if g.Pol && strings.HasPrefix(g.Text, "(net/netip.Addr).Is4(") && (strings.Contains(g.Text, arg) || strings.Contains(g.Text, root)) {
+					ok = true
+				}
+			}
+			st := core.Proved
+			if !ok {
+				st = core.Violated
+			}
+			key := strings.TrimSuffix(kga.Key("as4-guarded "+core.FuncName(fn)), "#0")
+			r.Add(core.Obligation{Rule: "as4-guarded", Key: key, Func: core.FuncName(fn), Pos: c.P.Pos(core.PosOf(ins)), Status: st,
+				Basis: "dominated by Is4() of the converted address", Detail: "As4() of " + arg + " is not under an Is4 test: a lease file whose subnet is an IPv6 prefix (lan: fe80::/64) makes the handler panic at start-up"})
+		}
+	}
 	// every key of a lease table gets its own Lease object: a pointer stored into the table inside a loop comes from an
 	// allocation that is executed again before the next store (the module's language version gives loop variables one
 	// instance per loop, so `tt[k] = &v` with a range variable makes every key share the last lease)
